@@ -14,6 +14,7 @@ Import ListNotations.
 Open Scope Z_scope.
 
 Section Complete.
+Variable exact : bool.
 Variables s1 s2 : spec.
 Variable R : Z -> Z -> Prop.
 
@@ -152,7 +153,7 @@ End Loop.
 
 (* ------------------------------------------------------------------ the recursive call *)
 Lemma complete_iso : forall f s a b r s',
-  Finv s -> iso s1 s2 f s a b = Ok (r, s') -> Finv s' /\ (R a b -> r = true).
+  Finv s -> iso exact s1 s2 f s a b = Ok (r, s') -> Finv s' /\ (R a b -> r = true).
 Proof.
   induction f as [|f IH]; intros s a b r s' HF; [discriminate|].
   cbn [iso].
@@ -214,18 +215,18 @@ Proof.
       destruct (Hrel HR) as [_ [(N1 & N2 & _)|(_ & _ & Hc & _)]].
       - rewrite N1, N2 in Enil. discriminate.
       - congruence. }
-  destruct (existsb (fun p => pair_in p (anc s)) (list_prod p1 p2)); cbn [bind].
+  destruct (existsb (fun p => pair_in p (anc s)) (anc_pairs exact p1 p2 c1 c2)); cbn [bind].
   { change (Z.eqb 1 1) with true. cbv iota. intros H; inversion H; subst. auto. }
   change (Z.eqb 0 1) with false. change (Z.eqb 0 (-1)) with false. cbv iota.
-  set (pr := list_prod p1 p2).
+  set (pr := anc_pairs exact p1 p2 c1 c2).
   set (n := length (ne_children s1 r1)).
   set (sA := mkSt (set_add_all (anc s) pr) (om s) (failed s)).
   apply Nat.eqb_eq in El.
-  destruct (iso_loop (iso s1 s2 f) (S f) (ne_children s1 r1) (ne_children s2 r2) n (init_stack n) []
+  destruct (iso_loop (iso exact s1 s2 f) (S f) (ne_children s1 r1) (ne_children s2 r2) n (init_stack n) []
                      (repeat (-1) n) sA) as [[ro s0]| |] eqn:Eloop; cbn [bind]; try discriminate.
   assert (HFA : Finv sA) by exact HF.
   assert (HF0 : Finv s0).
-  { eapply (loop_finv (ne_children s1 r1) (ne_children s2 r2) n eq_refl (eq_sym El) (iso s1 s2 f) IH); eauto. }
+  { eapply (loop_finv (ne_children s1 r1) (ne_children s2 r2) n eq_refl (eq_sym El) (iso exact s1 s2 f) IH); eauto. }
   (* a related pair with these current classes makes the loop succeed *)
   assert (Hsome : forall a' b' q1 q2, R a' b' -> eq_path s1 a' = Ok q1 -> eq_path s2 b' = Ok q2 ->
             last q1 a' = c1 -> last q2 b' = c2 -> ro <> None).
@@ -236,7 +237,7 @@ Proof.
     rewrite F2 in G2. inversion G2; subst t2.
     destruct Hcases as [(N1 & N2 & _)|(_ & _ & _ & Hpos & sigma & SL & SN & SB & SR)].
     { rewrite N1, N2 in Enil. discriminate. }
-    eapply (loop_complete (ne_children s1 r1) (ne_children s2 r2) n eq_refl (eq_sym El) (iso s1 s2 f) IH
+    eapply (loop_complete (ne_children s1 r1) (ne_children s2 r2) n eq_refl (eq_sym El) (iso exact s1 s2 f) IH
                           sigma SL SN); [| |exact HFA| | |exact Eloop].
     - intros j Hj. unfold n. rewrite El. apply SB; auto.
     - exact SR.
@@ -261,7 +262,7 @@ Qed.
 
 (* related roots: the search never answers False *)
 Theorem complete : R (s_root s1) (s_root s2) ->
-  forall fuel r st, are_isomorphic s1 s2 fuel = Ok (r, st) -> r = true.
+  forall fuel r st, are_isomorphic exact s1 s2 fuel = Ok (r, st) -> r = true.
 Proof.
   intros HR fuel r st H. unfold are_isomorphic in H.
   assert (HF : Finv st0) by (intros ? ? []).
